@@ -29,12 +29,21 @@ Definition find_reference_trak (traks : list trak) : res trak :=
 
 Record seg_data := mkSD { sd_start : N; sd_pt : N; sd_base : N; sd_dur : N; sd_size : N }.
 
-(* state of the loops of findSegmentData over one segment: baseTime, firstCompositionTimeOffset, dur *)
-Record sd_acc := mkAcc { a_base : N; a_cto : Z; a_dur : N }.
+(* state of the loops of findSegmentData over one segment: baseTime, firstCompositionTimeOffset, dur,
+   haveBaseTime, haveFirstSample (the two flags exist since repo commit 48b8dea) *)
+Record sd_acc := mkAcc { a_base : N; a_cto : Z; a_dur : N; a_seen : bool; a_first : bool }.
+Definition acc0 : sd_acc := mkAcc 0 0%Z 0 false false.
 
 (* `wrap`: the accumulator width.  The pinned text (before repo commit 85561e1) accumulated the
    duration in a uint32 (wrap = u32) and cast Size() to uint32; the repaired text accumulates in a
    uint64 and returns an error when the size needs more than 31 bits or the duration more than 32. *)
+Definition dur_fold (wrap : N -> N) (t : traf) (d : N) : N :=
+  fold_left (fun d x => wrap (d + x)) (concat (t_truns t)) d.
+
+(* The text before repo commit 48b8dea: base time and composition offset are looked for in the FIRST
+   fragment of the segment only (fIdx == 0), the offset in the first sample of the first trun only
+   (i == 0 && j == 0).  t_cto0 is the offset of the first sample of the traf: for a non-empty first
+   trun that is the same sample. *)
 Definition traf_step_w (wrap : N -> N) (ref_id : N) (first_frag : bool) (a : sd_acc) (t : traf) : sd_acc :=
   if t_track t =? ref_id then
     let base := if first_frag then t_base t else a_base a in
@@ -44,8 +53,7 @@ Definition traf_step_w (wrap : N -> N) (ref_id : N) (first_frag : bool) (a : sd_
                  | _ => a_cto a
                  end
                else a_cto a in
-    let dur := fold_left (fun d x => wrap (d + x)) (concat (t_truns t)) (a_dur a) in
-    mkAcc base cto dur
+    mkAcc base cto (dur_fold wrap t (a_dur a)) (a_seen a) (a_first a)
   else a.
 
 Fixpoint frags_step_w (wrap : N -> N) (ref_id : N) (first_frag : bool) (a : sd_acc) (frs : list fragment) : res sd_acc :=
@@ -58,8 +66,34 @@ Fixpoint frags_step_w (wrap : N -> N) (ref_id : N) (first_frag : bool) (a : sd_a
       end
   end.
 
-Definition traf_step := traf_step_w u64.
-Definition frags_step := frags_step_w u64.
+(* The current text (48b8dea): the first traf of the reference track in the segment gives the base time
+   (haveBaseTime); the first SAMPLE of the reference track in the segment - whichever fragment, traf and
+   trun hold it - gives the base time of its traf and its composition offset (haveFirstSample). *)
+Definition traf_has_sample (t : traf) : bool := negb (is_nil (concat (t_truns t))).
+
+Definition traf_step_r (wrap : N -> N) (ref_id : N) (a : sd_acc) (t : traf) : sd_acc :=
+  if t_track t =? ref_id then
+    let base1 := if a_seen a then a_base a else t_base t in          (* if !haveBaseTime *)
+    let here := negb (a_first a) && traf_has_sample t in             (* the sample loop meets !haveFirstSample *)
+    mkAcc (if here then t_base t else base1)
+          (if here then t_cto0 t else a_cto a)
+          (dur_fold wrap t (a_dur a))
+          true
+          (a_first a || traf_has_sample t)
+  else a.
+
+Fixpoint frags_step_r (wrap : N -> N) (ref_id : N) (a : sd_acc) (frs : list fragment) : res sd_acc :=
+  match frs with
+  | [] => Ok a
+  | fr :: t =>
+      match fr_moof fr with
+      | None => Err                                     (* "fragment without moof box" *)
+      | Some m => frags_step_r wrap ref_id (fold_left (traf_step_r wrap ref_id) (b_trafs m) a) t
+      end
+  end.
+
+Definition traf_step := traf_step_r u64.
+Definition frags_step := frags_step_r u64.
 
 Definition two64 : Z := 18446744073709551616%Z.
 
@@ -68,7 +102,7 @@ Definition MAX_REF_DUR : N := 4294967295.       (* 0xffffffff *)
 
 (* one iteration of findSegmentData's outer loop (repaired text) *)
 Definition seg_data_of (ref_id : N) (s : segment) : res seg_data :=
-  do a <- frags_step ref_id true (mkAcc 0 0%Z 0) (sg_frags s);
+  do a <- frags_step ref_id acc0 (sg_frags s);
   let seg_sz := u64 (seg_size s) in                     (* seg.Size(): uint64 *)
   if MAX_REF_SIZE <? seg_sz then Err                    (* "segment size ... does not fit the 31-bit referenced_size" *)
   else if MAX_REF_DUR <? a_dur a then Err               (* "segment duration ... does not fit the 32-bit subsegment_duration" *)
@@ -79,10 +113,21 @@ Definition seg_data_of (ref_id : N) (s : segment) : res seg_data :=
 
 (* the pinned text: dur uint32, size: uint32(seg.Size()), no error *)
 Definition seg_data_of_pinned (ref_id : N) (s : segment) : res seg_data :=
-  do a <- frags_step_w u32 ref_id true (mkAcc 0 0%Z 0) (sg_frags s);
+  do a <- frags_step_w u32 ref_id true acc0 (sg_frags s);
   Ok (mkSD (sg_start s)
            (Z.to_N ((Z.of_N (a_base a) + a_cto a) mod two64))
            (a_base a) (a_dur a) (u32 (seg_size s))).
+
+(* the text between 85561e1 and 48b8dea: errors instead of wraps, presentation time from the first fragment only *)
+Definition seg_data_of_eptold (ref_id : N) (s : segment) : res seg_data :=
+  do a <- frags_step_w u64 ref_id true acc0 (sg_frags s);
+  let seg_sz := u64 (seg_size s) in
+  if MAX_REF_SIZE <? seg_sz then Err
+  else if MAX_REF_DUR <? a_dur a then Err
+  else
+  Ok (mkSD (sg_start s)
+           (Z.to_N ((Z.of_N (a_base a) + a_cto a) mod two64))
+           (a_base a) (u32 (a_dur a)) (u32 seg_sz)).
 
 Fixpoint find_segment_data_g (one : N -> segment -> res seg_data) (ref_id : N) (segs : list segment) : res (list seg_data) :=
   match segs with
@@ -92,6 +137,7 @@ Fixpoint find_segment_data_g (one : N -> segment -> res seg_data) (ref_id : N) (
 
 Definition find_segment_data := find_segment_data_g seg_data_of.
 Definition find_segment_data_pinned := find_segment_data_g seg_data_of_pinned.
+Definition find_segment_data_eptold := find_segment_data_g seg_data_of_eptold.
 
 (* SidxBox.EncodeSW / DecodeSidxSR on the first word of a reference:
    sw.WriteUint32(uint32(ref.ReferenceType)<<31 | ref.ReferencedSize);  type = work >> 31, size = work & 0x7fffffff *)
@@ -183,3 +229,4 @@ Definition update_sidx_g (fsd : N -> list segment -> res (list seg_data)) (f : f
 
 Definition update_sidx := update_sidx_g find_segment_data.
 Definition update_sidx_pinned := update_sidx_g find_segment_data_pinned.
+Definition update_sidx_eptold := update_sidx_g find_segment_data_eptold.
